@@ -9,6 +9,7 @@ import Lace.Model.VM
 import Driver.RunH
 import Driver.CliH
 import Driver.DbgH
+import Driver.DbgText
 import Driver.Edit
 import Driver.CmdProto
 import Driver.Asm
@@ -63,6 +64,7 @@ def handle (line : String) : String :=
   | "X03" :: rest => handleX03 rest
   | "O06" :: rest => handleO06 rest
   | "D09" :: rest => handleDbg "D09" rest
+  | "T09" :: rest => handleT09 rest
   | "D10" :: rest => handleDbg "D10" rest
   | "D11" :: rest => handleDbg "D11" rest
   | "D12" :: rest => handleDbg "D12" rest
